@@ -2240,7 +2240,11 @@ impl<'store> AnnotationStore {
                         self.remove(resource)?;
                     }
                     for annotation in remove_annotations {
-                        self.remove(annotation)?;
+                        //the removal of an earlier result may have taken this one along already
+                        //(an annotation on an annotation is removed with its target)
+                        if StoreFor::<Annotation>::has(self, annotation) {
+                            self.remove(annotation)?;
+                        }
                     }
                     for (set, key) in remove_keys {
                         self.remove_key(set, key, true)?;
